@@ -32,14 +32,15 @@ def must_see(tier):
          'outcome:conflict:12': 1, 'outcome:conflict:13': 1,
          'outcome:conflict:11': 1, 'outcome:conflict:0': 1,
          'outcome:read-conflict': 5, 'height>=3': 20,
-         'write-dependency-checks': 500, 'pure-read-checks': 500}
+         'write-dependency-checks': 500, 'pure-read-checks': 500,
+         'path-node-was-ghost-at-write': 100}
     for s in SCENARIOS:
         m['scenario:' + s] = 5
     return m
 
 
 SCENARIOS = ['random', 'min-vs-below', 'empty-vs-insert', 'split-vs-insert',
-             'clear-vs-any', 'same-leaf-disjoint']
+             'clear-vs-any', 'same-leaf-disjoint', 'same-key']
 
 
 def plan(tier, seed):
@@ -138,6 +139,27 @@ def gen_tx(fam, kind, rng, scen, role, w, base_keys, universe, values, mls):
     elif scen == 'clear-vs-any':
         if role == 0:
             ops.append(('clear', ()))
+    elif scen == 'same-key' and leaves:
+        # both transactions touch the SAME key of one leaf (delete vs value
+        # change, change vs change, delete vs delete, duelling inserts)
+        li = rng.randrange(len(leaves))
+        L = leaves[li]
+        lo = L[0]
+        hi = leaves[li + 1][0] if li + 1 < len(leaves) else None
+        which = rng.random()
+        if which < 0.75 and len(L) > 1:
+            k = L[-1] if rng.random() < .5 else rng.choice(L[1:])
+            how = rng.choice(['del-chg', 'chg-del', 'chg-chg', 'del-del'])
+            mine = how.split('-')[role]
+            if mine == 'del' or not is_mapping:
+                ops.append(dele(k))
+            else:
+                ops.append(('setitem', (k, rng.choice(values))))
+        else:
+            cands = between(lo, hi)
+            if cands:
+                k = cands[-1] if rng.random() < .5 else rng.choice(cands)
+                ops.append(ins(k))
     elif scen == 'same-leaf-disjoint' and leaves:
         li = rng.randrange(len(leaves))
         L = leaves[li]
@@ -225,6 +247,7 @@ def run_schedule(fam, kind, impl, rng, rec, idx):
     if w0.height >= 3:
         rec.ev('height>=3')
     scen = rng.choice(SCENARIOS)
+    scen_seed = rng.getrandbits(32)
     roles = [0, 1]
     rng.shuffle(roles)       # both commit orders arise
     desc = dict(family=fam.name, kind=kind, impl=impl, sizes=sizes,
@@ -233,8 +256,11 @@ def run_schedule(fam, kind, impl, rng, rec, idx):
     for t in range(2):
         conn = minidb.Connection(storage, impl)
         tree = conn.get(root_oid)
-        ops = gen_tx(fam, kind, rng, scen, roles[t], w0, set(base._keys()),
-                     uni, vals, sizes[0])
+        import random as _random
+        ops = gen_tx(fam, kind,
+                     _random.Random(scen_seed) if scen == 'same-key' else rng,
+                     scen, roles[t], w0, set(base._keys()), uni, vals,
+                     sizes[0])
         model = base.copy()
         # a few pure reads first: they must not declare dependencies
         for _ in range(rng.randint(0, 2)):
@@ -257,9 +283,21 @@ def run_schedule(fam, kind, impl, rng, rec, idx):
         for op, args in ops:
             conn.op_index += 1
             key = args[0] if (op in harness.SINGLE_KEY_OPS and args) else None
+            # computing the path must not change which nodes are ghosts when
+            # the write reaches them (a dependency on a node that is still a
+            # ghost must be declared too)
+            before = dict((o._p_oid, o._p_state)
+                          for o in conn.cached_objects())
+            conn.log_events = False
             path = descent_path(tree, key) if key is not None else []
-            stored = [n for n in path if n._p_oid is not None and
-                      n._p_serial != minidb.Z64]
+            stored_oids = [n._p_oid for n in path if n._p_oid is not None and
+                           n._p_serial != minidb.Z64]
+            for o in conn.cached_objects():
+                if before.get(o._p_oid, -1) == -1 and o._p_state == 0:
+                    o._p_deactivate()
+                    rec.ev('path-node-was-ghost-at-write')
+            conn.log_events = True
+            stored = path
             rargs = tuple(gen.materialize(a, fam, impl, tree, False)
                           for a in args)
             margs = tuple(gen.materialize(a, fam, impl, model, True)
@@ -273,15 +311,14 @@ def run_schedule(fam, kind, impl, rng, rec, idx):
                     key is not None and not eq(pre, model.contents()):
                 # a real write (the contents changed)
                 rec.ev('write-dependency-checks')
-                regs = set(id(o) for o in conn.registered)
-                missing = [n for n in stored
-                           if n._p_oid not in conn.read_current and
-                           id(n) not in regs]
+                regs = set(o._p_oid for o in conn.registered)
+                missing = [o_ for o_ in stored_oids
+                           if o_ not in conn.read_current and o_ not in regs]
                 if missing:
                     rec.violation('write-did-not-declare-read-dependency',
                                   op=op, args=brief(args), tx=t,
                                   path_len=len(path), missing=len(missing),
-                                  missing_is_root=missing[0] is tree, **desc)
+                                  missing_is_root=missing[0] == tree._p_oid, **desc)
                     return
         try:
             local = harness.contents(tree, is_mapping)
